@@ -66,6 +66,28 @@ def run(tier, seed):
         a2, b2 = p * q, q * p
         R.check((a2 == b2) and not (a2 != b2) and hash(a2) == hash(b2), "eq=>hash-equal-and-not-ne", {"p": str(p), "q": str(q), "op": "mul"}, "p*q vs q*p")
         R.check((p == q) != (p != q), "exactly-one-of-eq-ne", {"p": str(p), "q": str(q)}, "== %r != %r" % (p == q, p != q))
+    # monomials to negative and positive powers (the single-term branch of __pow__): (c x^k)**n == c**n x^(k n); m**n * m**-n == 1;
+    # composition of a Laurent polynomial with a monomial
+    for c in (F(1), F(-1), F(2), F(-2), F(1, 2), F(-1, 3)):
+        for k in (1, 2, -1):
+            m_ = c * x ** k
+            for n in (-3, -2, -1, 1, 2, 3):
+                R.guard("monomial-power", {"c": str(c), "k": k, "n": n}, lambda: (pd_eq(pd_of(m_ ** n), {k * n: c ** n}), "(%s x^%d)**%d = %r" % (c, k, n, pd_of(m_ ** n))))
+            for n in (1, 2, 3):
+                R.guard("monomial-power", {"c": str(c), "k": k, "n": n, "identity": "m**n * m**-n == 1"}, lambda: (pd_eq(pd_of(m_ ** n * m_ ** -n), {0: 1}), "m**n * m**-n = %r" % pd_of(m_ ** n * m_ ** -n)))
+        lau = x ** -2 + 3 * x ** -1 + 1
+        R.guard("composition-with-a-monomial", {"c": str(c)}, lambda: (pd_eq(pd_of(lau(c * x)), {-2: c ** -2, -1: 3 * c ** -1, 0: 1}), "(x^-2 + 3x^-1 + 1)(%s x) = %r" % (c, pd_of(lau(c * x)))))
+    # exact Lagrange interpolation on non-dyadic rational data (no float may appear)
+    for pts in ([(F(-1), F(1, 3)), (F(0), F(2, 7)), (F(2), F(-5, 9))], [(F(1, 3), F(1)), (F(2, 3), F(4)), (F(5, 3), F(-2)), (F(3), F(1, 7))]):
+        def lagex():
+            pl = lagrange.poly(pts)
+            fn = lagrange.func(pts)
+            for xi, yi in pts:
+                for nm, got in (("poly", pl(xi)), ("func", fn(xi))):
+                    if got != yi or isinstance(got, float):
+                        return False, "lagrange.%s through %r gives %r at %s (exactly %s expected)" % (nm, [(str(a), str(b)) for a, b in pts], got, xi, yi)
+            return True, ""
+        R.guard("lagrange-passes-through-its-points-exactly", {"points": len(pts)}, lagex)
     # (x - x) ** 0 and composition into the empty polynomial
     e = x - x
     R.guard("empty**0-is-1", {}, lambda: (pd_eq(pd_of(e ** 0), {0: 1}), "(x-x)**0 = %r" % pd_of(e ** 0)))
